@@ -29,6 +29,15 @@
 (*           neither end closed (DESIGN.md 6 row 16).  DevLimiter = FALSE models the limiter as   *)
 (*           the statement needs it (the wait is split into burst-sized pieces).                  *)
 (*                                                                                                *)
+(* Start of the copiers: Start() launches the s2t goroutine, then the t2s goroutine; each evaluates   *)
+(* b.targetForwarder itself, when it first runs.  Close() sets that field to nil.  If one copier   *)
+(* ends at once (an end was already closed / failed when the target attached) and Close() completes *)
+(* before the t2s goroutine has started, CopyWithControl is entered with a nil reader and the       *)
+(* server process dies of a nil dereference (named deviation DevNilForwarder, flag `crashed`;       *)
+(* DevNilFwd = FALSE models a snapshot of the forwarder taken before the goroutines start).         *)
+(* (The s2t goroutine cannot be caught the same way: Close() clears the source forwarder first and  *)
+(* the goroutine then waits for the cancelled context.)                                             *)
+(*                                                                                                *)
 (* Source replacement (handleExistingBridge -> SetSourceConnection): the new connection becomes   *)
 (* the write side of t2s at once (dynamicSourceWriter); the s2t copier keeps reading the OLD      *)
 (* connection until that read ends, then continues with the new one.  Close() closes only the     *)
@@ -46,6 +55,8 @@ CONSTANTS BUF,         \* copy buffer size (model scale, >= 3)
           Replace,     \* TRUE: source replacement explored
           ExtCloseOn,  \* TRUE: Bridge.Close() by a third party (shutdown, quota) explored
           DevLimiter,  \* TRUE: limiter as found (error when n > burst); FALSE: split waits
+          DevNilFwd,   \* TRUE: goroutines read b.targetForwarder when they start (as found); FALSE: snapshot
+          DevStaleSrc, \* TRUE: a replaced source connection is left open (as found); FALSE: it is closed
           Gen,         \* TRUE: generation mode (history kept)
           Emit         \* TRUE: print behaviours
 
@@ -53,15 +64,15 @@ VARIABLES lim, tokens, paid,
           attached, endSt, avail, sent, delivered, rdOff, inflight, pc,
           armed, glitch, nfault, bridgeClosed, registered, nsend, ended,
           replaced, oldClosed, rdgen,
-          devLimErr, devStale, lost, misorder,
+          devLimErr, devStale, lost, misorder, crashed, dropped,
           hist
 
 vars == <<lim, tokens, paid, attached, endSt, avail, sent, delivered, rdOff, inflight, pc,
           armed, glitch, nfault, bridgeClosed, registered, nsend, ended, replaced, oldClosed, rdgen,
-          devLimErr, devStale, lost, misorder, hist>>
+          devLimErr, devStale, lost, misorder, crashed, dropped, hist>>
 view == <<lim, tokens, paid, attached, endSt, avail, sent, delivered, rdOff, inflight, pc,
           armed, glitch, nfault, bridgeClosed, registered, nsend, ended, replaced, oldClosed, rdgen,
-          devLimErr, devStale, lost, misorder>>
+          devLimErr, devStale, lost, misorder, crashed, dropped>>
 
 Ends  == {"S", "T"}
 Dirs  == {"s2t", "t2s"}
@@ -71,6 +82,8 @@ Dst(d)   == IF d = "s2t" THEN "T" ELSE "S"
 OutOf(e) == IF e = "S" THEN "s2t" ELSE "t2s"
 Other(e) == IF e = "S" THEN "T" ELSE "S"
 Min(a, b) == IF a < b THEN a ELSE b
+RECURSIVE SumSeq(_)
+SumSeq(q) == IF q = <<>> THEN 0 ELSE Head(q) + SumSeq(Tail(q))
 
 Size(c) == CASE c = "one" -> 1 [] c = "Bm1" -> BUF - 1 [] c = "B" -> BUF [] c = "Bp1" -> BUF + 1 [] c = "big" -> 2 * BUF
 Paced(l) == l \in {"tiny", "edge"}
@@ -93,7 +106,7 @@ Init == /\ lim \in Lims /\ tokens = Burst(lim) /\ paid = [d \in Dirs |-> 0]
         /\ armed = [e \in Ends |-> FALSE] /\ glitch = [e \in Ends |-> FALSE] /\ nfault = 0
         /\ bridgeClosed = FALSE /\ registered = TRUE /\ nsend = 0 /\ ended = "none"
         /\ replaced = FALSE /\ oldClosed = FALSE /\ rdgen = 1
-        /\ devLimErr = FALSE /\ devStale = FALSE /\ lost = [d \in Dirs |-> 0] /\ misorder = FALSE
+        /\ devLimErr = FALSE /\ devStale = FALSE /\ lost = [d \in Dirs |-> 0] /\ misorder = FALSE /\ crashed = FALSE /\ dropped = 0
         /\ hist = <<>>
 
 Out(h) == IF Emit THEN PrintT("BEH " \o ToJson([lim |-> lim, steps |-> h])) ELSE TRUE
@@ -105,7 +118,7 @@ LimU   == UNCHANGED <<lim, tokens, paid>>
 CopU   == UNCHANGED <<sent, delivered, rdOff, inflight, pc, rdgen>>
 FaultU == UNCHANGED <<armed, glitch, nfault>>
 RepU   == UNCHANGED <<replaced, oldClosed>>
-DevU   == UNCHANGED <<devLimErr, devStale, lost, misorder>>
+DevU   == UNCHANGED <<devLimErr, devStale, lost, misorder, crashed, dropped>>
 
 \* ---- environment: the two clients, the target's arrival, third parties --------------------------
 Send(e, c) ==
@@ -124,7 +137,7 @@ Send(e, c) ==
 Attach ==
   /\ ~attached /\ registered /\ ~bridgeClosed
   /\ attached' = TRUE
-  /\ pc' = [d \in Dirs |-> "read"]
+  /\ pc' = [d \in Dirs |-> IF d = "t2s" THEN "start" ELSE "read"]
   /\ rdgen' = IF replaced THEN 2 ELSE 1
   /\ H([a |-> "attach"])
   /\ LimU /\ FaultU /\ RepU /\ DevU
@@ -168,10 +181,16 @@ Glitch(e) ==
 \* the source client re-opens the tunnel on a new connection (handleExistingBridge)
 ReplaceSource ==
   /\ Replace /\ ~replaced /\ ended = "none" /\ endSt["S"] = "open" /\ registered /\ ~bridgeClosed
-  /\ replaced' = TRUE /\ oldClosed' = oldClosed
+  /\ replaced' = TRUE
+  /\ IF DevStaleSrc
+     THEN UNCHANGED <<oldClosed, avail, dropped>>
+     ELSE \* SetSourceConnection closes the connection it replaces: what was unread there is gone
+          /\ oldClosed' = TRUE
+          /\ avail' = [avail EXCEPT !["s1"] = <<>>]
+          /\ dropped' = dropped + SumSeq(avail["s1"])
   /\ H([a |-> "replace"])
-  /\ LimU /\ CopU /\ FaultU /\ DevU
-  /\ UNCHANGED <<attached, endSt, avail, bridgeClosed, registered, nsend, ended>>
+  /\ LimU /\ CopU /\ FaultU
+  /\ UNCHANGED <<attached, endSt, bridgeClosed, registered, nsend, ended, devLimErr, devStale, lost, misorder, crashed>>
 
 \* the replaced connection finally ends (the client or the network closes it)
 CloseOld ==
@@ -190,6 +209,18 @@ ExitCopy(d) ==
   ELSE rdgen' = rdgen /\ pc' = [pc EXCEPT ![d] = "done"]
 
 Drop(d) == lost' = [lost EXCEPT ![d] = @ + inflight[d]] /\ inflight' = [inflight EXCEPT ![d] = 0]
+
+\* the t2s goroutine starts running: it evaluates b.targetForwarder and enters CopyWithControl
+Enter(d) ==
+  /\ pc[d] = "start" /\ ~crashed
+  /\ IF bridgeClosed /\ DevNilFwd
+     THEN \* DEVIATION: Close() has already set the field to nil -> src.Read on a nil interface: panic
+          crashed' = TRUE /\ pc' = [pc EXCEPT ![d] = "done"]
+     ELSE crashed' = crashed /\ pc' = [pc EXCEPT ![d] = "read"]
+  /\ NoH
+  /\ LimU /\ FaultU /\ RepU
+  /\ UNCHANGED <<attached, endSt, avail, sent, delivered, rdOff, inflight, rdgen, bridgeClosed, registered, nsend, ended,
+                 devLimErr, devStale, lost, misorder, dropped>>
 
 \* src.Read(buf)
 Read(d) ==
@@ -246,7 +277,7 @@ Limit(d) ==
         /\ UNCHANGED <<devLimErr, lost, inflight, rdgen>>
   /\ NoH
   /\ UNCHANGED <<lim, attached, endSt, avail, sent, delivered, rdOff, bridgeClosed, registered, nsend, ended,
-                 devStale, misorder>> /\ FaultU /\ RepU
+                 devStale, misorder, crashed, dropped>> /\ FaultU /\ RepU
 
 \* time passes: the bucket refills (only interesting while a copier waits)
 Refill ==
@@ -282,7 +313,7 @@ Write(d) ==
         /\ UNCHANGED <<endSt, armed, ended, lost, rdgen>>
   /\ H([a |-> "W", d |-> d])
   /\ UNCHANGED <<lim, tokens, paid, attached, avail, sent, rdOff, glitch, nfault, bridgeClosed, registered, nsend,
-                 devLimErr, devStale>> /\ RepU
+                 devLimErr, devStale, crashed, dropped>> /\ RepU
 
 \* closeBridge(): the first copier goroutine that ends runs Bridge.Close() - the current source
 \* and target connections are closed (both ends observe closure), then the context is cancelled
@@ -326,15 +357,17 @@ MarkStale ==
   /\ devStale' = TRUE
   /\ NoH
   /\ LimU /\ CopU /\ FaultU /\ RepU
-  /\ UNCHANGED <<attached, endSt, avail, bridgeClosed, registered, nsend, ended, devLimErr, lost, misorder>>
+  /\ UNCHANGED <<attached, endSt, avail, bridgeClosed, registered, nsend, ended, devLimErr, lost, misorder, crashed, dropped>>
 
-Copier(d) == Read(d) \/ Limit(d) \/ Write(d)
+Copier(d) == Enter(d) \/ Read(d) \/ Limit(d) \/ Write(d)
 Env == \/ \E e \in Ends : \E c \in Classes : Send(e, c)
        \/ Attach
        \/ \E e \in Ends : CloseEnd(e) \/ ErrorEnd(e) \/ Arm(e) \/ Glitch(e)
        \/ ReplaceSource \/ CloseOld \/ ExtClose
 Sys == (\E d \in Dirs : Copier(d)) \/ Refill \/ CloseBridge \/ Unregister \/ ReadyTimeout \/ MarkStale
-Next == Env \/ Sys
+\* a crashed server process does nothing any more (its sockets are closed by the kernel, its tunnel map
+\* is gone with it): `crashed` is absorbing
+Next == ~crashed /\ (Env \/ Sys)
 Spec == Init /\ [][Next]_vars
 
 \* weak fairness on the copiers, the clock, Close and the lifecycle goroutine - not on the environment
@@ -344,7 +377,7 @@ LiveSpec == Spec /\ Fair
 
 \* ---- properties (statement of C02) ------------------------------------------------------------
 TypeOK == /\ lim \in Lims /\ tokens \in 0..BUF /\ attached \in BOOLEAN /\ bridgeClosed \in BOOLEAN
-          /\ \A d \in Dirs : /\ pc[d] \in {"idle", "read", "limit", "write", "done"}
+          /\ \A d \in Dirs : /\ pc[d] \in {"idle", "start", "read", "limit", "write", "done"}
                              /\ inflight[d] \in 0..BUF /\ paid[d] \in 0..BUF
           /\ \A e \in Ends : endSt[e] \in {"open", "closed", "failed"}
           /\ rdgen \in {1, 2} /\ ended \in {"none", "close", "error", "bridge"}
@@ -373,29 +406,34 @@ GracefulTail(e) == /\ ended = "close" /\ endSt[e] = "closed" /\ ~registered /\ ~
 
 \* both directions progress independently: a direction with unread or buffered bytes can always take
 \* a step (or only waits for the clock) while the tunnel is up - whatever the other direction does
-CanStep(d) == \/ pc[d] = "read" /\ (avail[RdChan(d)] # <<>> \/ glitch[Src(d)])
+CanStep(d) == \/ pc[d] = "start"
+              \/ pc[d] = "read" /\ (avail[RdChan(d)] # <<>> \/ glitch[Src(d)])
               \/ pc[d] = "write"
               \/ pc[d] = "limit" /\ (lim = "large" \/ tokens > 0 \/ inflight[d] > Burst(lim))
               \/ pc[d] = "limit" /\ tokens < Burst(lim)                          \* Refill enabled
 \* bytes left on the replaced connection when the copier moved on (or never read it): never delivered
 Stranded == rdgen = 2 /\ avail["s1"] # <<>>
+\* bytes discarded unread when the replaced connection was closed by the bridge
+Gone(d) == IF d = "s2t" THEN dropped ELSE 0
 Stuck(d) == /\ ended = "none" /\ ~(d = "s2t" /\ Stranded) /\ attached /\ ~bridgeClosed /\ ~OnOld(d) /\ pc[d] # "done" /\ endSt[Src(d)] # "failed"
-            /\ delivered[d] + lost[d] < sent[d] /\ ~CanStep(d)
+            /\ delivered[d] + lost[d] + Gone(d) < sent[d] /\ ~CanStep(d)
 Independent      == \A d \in Dirs : ~Stuck(d)
 IndependentKnown == devLimErr \/ Independent     \* limiter error + replacement: the rest of the old connection is never read
 
 \* the server forgets the tunnel only after the bridge is closed; closed implies both ends saw it
 ForgetImpliesClosed == ~registered => bridgeClosed
+\* the server survives whatever the ends do
+NoCrash == ~crashed
 
 \* ---- liveness (under Fair) ----------------------------------------------------------------------
 \* when either end closes or fails, the other end observes closure and the server forgets the tunnel
 ClosureSeen      == \A e \in Ends : (attached /\ endSt[e] # "open") ~> bridgeClosed
 Forgotten        == (attached /\ ended # "none") ~> ~registered
 ClosureSeenKnown == \A e \in Ends : (attached /\ endSt[e] # "open") ~> (bridgeClosed \/ (replaced /\ ~oldClosed))
-ForgottenKnown   == (attached /\ ended # "none") ~> (~registered \/ devStale \/ (replaced /\ ~oldClosed))
+ForgottenKnown   == (attached /\ ended # "none") ~> (~registered \/ crashed \/ devStale \/ (replaced /\ ~oldClosed))
 \* a tunnel whose target never comes is forgotten as well (30 s timer)
 NeverAttached == (~attached) ~> (attached \/ ~registered)
 \* bytes sent while both ends stay open are eventually delivered: the copiers always catch up again
-CatchUp      == []<>(~attached \/ ended # "none" \/ (replaced /\ ~oldClosed) \/ \A d \in Dirs : delivered[d] = sent[d])
-CatchUpKnown == []<>(~attached \/ ended # "none" \/ (replaced /\ ~oldClosed) \/ devLimErr \/ \A d \in Dirs : delivered[d] = sent[d])
+CatchUp      == []<>(Stranded \/ ~attached \/ ended # "none" \/ (replaced /\ ~oldClosed) \/ \A d \in Dirs : delivered[d] + Gone(d) = sent[d])
+CatchUpKnown == []<>(Stranded \/ ~attached \/ ended # "none" \/ (replaced /\ ~oldClosed) \/ devLimErr \/ \A d \in Dirs : delivered[d] + Gone(d) = sent[d])
 =============================================================================
